@@ -186,17 +186,18 @@ impl Man {
     }
 
     fn _render_title(&self, roff: &mut Roff) {
-        roff.control("TH", self.title_args());
+        let args = self.title_args();
+        roff.control("TH", args.iter().map(|a| a.as_str()));
     }
 
     // Turn metadata into arguments for a .TH macro.
-    fn title_args(&self) -> Vec<&str> {
+    fn title_args(&self) -> Vec<String> {
         vec![
-            &self.title,
-            &self.section,
-            &self.date,
-            &self.source,
-            &self.manual,
+            control_arg(&self.title),
+            control_arg(&self.section),
+            control_arg(&self.date),
+            control_arg(&self.source),
+            control_arg(&self.manual),
         ]
     }
 
@@ -274,7 +275,7 @@ impl Man {
                 .into_iter()
                 .partition(|&a| a.get_help_heading() == Some(heading));
 
-            roff.control("SH", [heading.to_uppercase().as_str()]);
+            roff.control("SH", [control_arg(&heading.to_uppercase()).as_str()]);
             render::options(roff, &args);
         }
     }
@@ -287,8 +288,8 @@ impl Man {
     }
 
     fn _render_subcommands_section(&self, roff: &mut Roff) {
-        let heading = subcommand_heading(&self.cmd);
-        roff.control("SH", [heading]);
+        let heading = control_arg(subcommand_heading(&self.cmd));
+        roff.control("SH", [heading.as_str()]);
         render::subcommands(roff, &self.cmd, &self.section);
     }
 
@@ -329,6 +330,11 @@ impl Man {
         roff.control("SH", ["AUTHORS"]);
         roff.text([author]);
     }
+}
+
+// A control line ends at the first newline, keep its arguments on that line
+fn control_arg(arg: &str) -> String {
+    arg.replace('\n', " ")
 }
 
 // Does the application have a version?
